@@ -94,9 +94,13 @@ def _eligible(fn):
         return False
     if any(isinstance(x, ast.Name) and x.id == fn.name for x in inner) or any(isinstance(x, ast.Attribute) and x.attr == fn.name for x in inner):
         return False        # recursive
-    if any(isinstance(x, ast.Call) and isinstance(x.func, ast.Name) and x.func.id in ('locals', 'vars', 'super', 'eval', 'exec') for x in inner):
+    if any(isinstance(x, ast.Call) and isinstance(x.func, ast.Name) and x.func.id in ('locals', 'vars', 'eval', 'exec') for x in inner):
         return False
     return True
+
+
+def _uses_super(fn):
+    return any(isinstance(x, ast.Call) and isinstance(x.func, ast.Name) and x.func.id == 'super' for x in ast.walk(fn))
 
 
 # ---------------------------------------------------------------------------------------------- return elimination
@@ -359,6 +363,14 @@ class _Inliner:
         changed = False
         out = []
         for s in stmts:
+            # `return A if c else helper(..)` is the statement form `if c: return A else: return helper(..)`
+            if isinstance(s, (ast.Return, ast.Assign)) and isinstance(s.value, ast.IfExp) and any(
+                    isinstance(x, ast.Call) and any(self._call_kind(x, n, i) is not None for n, i in cands.items())
+                    for part in (s.value.body, s.value.orelse) for x in ast.walk(part)):
+                a, b = copy.copy(s), copy.copy(s)
+                a.value, b.value = s.value.body, s.value.orelse
+                s = ast.copy_location(ast.If(test=s.value.test, body=[a], orelse=[b]), s)
+                changed = True
             # nested statement lists first
             for fld in ('body', 'orelse', 'finalbody'):
                 sub = getattr(s, fld, None)
@@ -432,6 +444,9 @@ class _Inliner:
                     for key, mod, cls, fn, container in list(_functions(self.mods)):
                         if fn is info[3]:
                             continue
+                        if _uses_super(info[3]) and (cls != info[2] or mod != info[1]) and any(
+                                isinstance(x, ast.Call) and self._call_kind(x, name, info) is not None for x in ast.walk(fn)):
+                            raise _Blocked()       # zero-argument super() means something else in another class
                         new, ch = self._process_list(fn.body, one)
                         if ch:
                             fn.body = new
